@@ -291,9 +291,16 @@ def build_leg(chinfo, leg):
 def storage_variant(a, variant):
     """The same tensor in a different (valid) internal storage state, reached through public operations only:
     variant 1: blocks stored in a non-lexsorted order (transpose there and back);
-    variant 2: additionally a stored block that is entirely zero (element assignment of 0. inserts a block)."""
+    variant 2: additionally a stored block that is entirely zero (element assignment of 0. inserts a block);
+    variant 3: blocks in Fortran order (not C-contiguous), as from_ndarray produces them from a Fortran-ordered array."""
     if variant == 0 or a.rank < 2:
         return a
+    if variant == 3:
+        # blocks that are not C-contiguous (last axis strided): from_ndarray of a Fortran-ordered dense array keeps the layout
+        import tenpy.linalg.np_conserved as npc
+        b = npc.Array.from_ndarray(np.asfortranarray(a.to_ndarray()), a.legs, dtype=a.dtype, qtotal=a.qtotal, labels=a.get_leg_labels())
+        b.ipurge_zeros(0.)
+        return b
     perm = list(range(a.rank))[::-1]
     b = a.transpose(perm).transpose(perm)
     if variant == 2:
